@@ -131,11 +131,35 @@ fn accepted(v: &J) -> bool {
 fn replay(args: &[String]) -> i32 {
     let inp = arg_value(args, "--in").unwrap_or("-");
     let out = arg_value(args, "--out").unwrap_or("-");
+    let skip: usize = arg_value(args, "--skip").and_then(|s| s.parse().ok()).unwrap_or(0);
+    if let Some(wd) = arg_value(args, "--watch") {
+        // a hang or a crash of the code under test becomes an event (util::watchdog_start)
+        watchdog_start(wd, 30, arg_flag(args, "--sync"));
+    }
     let mut w = open_out(out);
     let mut i = 0usize;
     for_each_case(inp, |case| {
         i += 1;
+        if i <= skip {
+            return;
+        }
+        heartbeat(|| {
+            let gone = json!({"parse": "crash", "rest": 0});
+            let mut ev = json!({"i": i, "toks": case["toks"], "style": case["style"], "text": case["text"],
+                                "wf": case["wf"], "viol": case["viol"], "raw": gone, "merged": gone, "info": gone,
+                                "rt": {"print": "none"}, "fast": false, "crash": true});
+            if let Some(src) = case.get("src") {
+                ev["src"] = src.clone();
+            }
+            ev.to_string()
+        });
         let text = cps_to_string(&case["text"]);
+        if let Some(needle) = arg_value(args, "--selftest-abort-on") {
+            // self-test of the crash handling of the driver (never used by a check)
+            if text.contains(needle) {
+                std::process::abort();
+            }
+        }
         let raw = view(&text, false);
         let merged = view(&text, true);
         let info = info_view(&text);
@@ -174,6 +198,9 @@ fn replay(args: &[String]) -> i32 {
             ev["src"] = src.clone();
         }
         writeln!(w, "{}", ev).unwrap();
+        if arg_flag(args, "--sync") {
+            w.flush().unwrap();
+        }
     });
     0
 }
